@@ -13,6 +13,7 @@ import json
 import common
 import gen_common as G
 import gen_checks as GC
+import gen_main
 import gen_market
 import gen_tax
 import gen_asset
@@ -145,14 +146,14 @@ def flow_oracle(c, expected, zone):
 
 def run(ctx):
     out, metas = GC.run_targets(
-        ctx, PID, make_targets, 60, 700,
+        ctx, PID, make_targets, 45, 700,
         rule=('random model programs from harness/gen_common.ProgGen.any(): single economy / 2-3 regions sharing a '
               'currency / 2-3 currency zones with ExternalSector (cross-zone gifts, imports, non-unit time-varying '
               'XR paths) / gold standard; consolidated or treasury+central-bank government, 1-2 households (incl. '
               'expectations), capitalists, 1-2 firms (single or multi output, zero or positive margin), tax flow, '
               'money and deposit markets with portfolio choice, gifts; one balance target per real currency zone; '
               'non-trivial = program built and emitted equations; distinct by full program'))
-    out.proof = common.proof_status(FAMILY, PROPFILE)
+    out.proof = None
     # booking-level correspondence and oracle
     from common import coq_string, coq_list, coq_Z
     cases, cm = [], []
@@ -185,11 +186,12 @@ def run(ctx):
         "the external sector's own NUMERAIRE pseudo-zone is excluded here (C07 states its position)"]
     # per-group balance lemmas for ALL zones / participant lists (coq/GenMarket, coq/GenTax, coq/GenAsset), each
     # tied to the implementation by its own state correspondence and oracle
-    out.proof = common.merge_proofs([out.proof] + [common.proof_status(f, p) for f, p in
-                                                   gen_market.PROOFS + gen_tax.PROOFS + gen_asset.PROOFS])
+    out.proof = common.proof_status_many([(FAMILY, PROPFILE)] + gen_market.PROOFS + gen_tax.PROOFS + gen_asset.PROOFS + gen_main.PROOFS)
     gen_market.extra(ctx, out, 150, 2000)
     gen_tax.extra(ctx, out)
     gen_asset.extra(ctx, out)
+    # whole-pipeline model of Model.main() for single-currency programs with program-level theorems (coq/GenMain)
+    gen_main.extra(ctx, out)
     return out
 
 
@@ -203,6 +205,8 @@ def replay(path):
             print('FAILS:', f['what'][:300])
         print('replay: %s' % ('property violated' if fails else 'property holds on this input'))
         return 1 if fails else 0
+    if r.get('kind') == 'main':
+        return gen_main.replay(obj)
     if r.get('kind') == 'market':
         return gen_market.replay(obj)
     if r.get('kind') in ('tax', 'dividends'):
